@@ -12,3 +12,6 @@ for _p in ['C04', 'C07', 'C10', 'C16']:
     DEPS[_p] += ['routes', 'smithy_ops']
 DEPS['C13'] += ['xmlschema']
 DEPS['C13'] += ['smithy_xml']
+DEPS['C04'] += ['errors']
+for _p in ['C02', 'C03']:
+    DEPS[_p] += ['routes', 'smithy_ops', 'xmlschema', 'bindings']
